@@ -154,6 +154,26 @@ pub fn c17_jbrd_app_marker_size_queries_total() {
 
 const AC_LEN: usize = 18;
 
+/// Stand-ins so that the output vectors never reallocate under symbolic lengths (DESIGN 8.8).
+pub fn jbr_push_stub<T, A: std::alloc::Allocator>(v: &mut Vec<T, A>, value: T) {
+    let len = v.len();
+    assert!(len < v.capacity(), "stub: push within the reserved capacity");
+    unsafe {
+        core::ptr::write(v.as_mut_ptr().add(len), value);
+        v.set_len(len + 1);
+    }
+}
+pub fn jbr_extend_stub<T: Clone, A: std::alloc::Allocator>(v: &mut Vec<T, A>, other: &[T]) {
+    let mut i = 0;
+    while i < other.len() {
+        jbr_push_stub(v, other[i].clone());
+        i += 1;
+    }
+}
+pub fn jbr_bit_writer_new() -> jv::BitWriter {
+    jv::BitWriter::verif_with_capacity(64)
+}
+
 /// ITU-T T.81 F.1.2 sequential entropy coding of one block (DC difference + AC run/size coding),
 /// with the fixed tables of the harness: DC category c has the 4-bit code c, AC symbols EOB, ZRL and
 /// (run r, size 1) have the 5-bit codes 0, 1 and 2 + r. Returns the bit string left-aligned in 128 bits and its length.
@@ -238,21 +258,135 @@ fn block_case(p1: Option<(usize, i16)>, p2: Option<(usize, i16)>) {
 }
 
 // @prop C17
-// @tier experimental
+// @tier quick
 // @unit jxl_jbr::reconstruct::scan::{process_sequential,ScanState::{update_dc_pred,flush_bit_writer}} jxl_jbr::huffman::HuffmanCode::build jxl_jbr::bit_writer::BitWriter
-// @sym DC value and predictor (|v| < 1024); the AC part is concrete per case (symbolic AC positions or signs make the slice scan of process_sequential intractable): the layout of the 18-coefficient block is enumerated: all zero; one coefficient at position 0, 15, 16 or 17 (zero runs 0, 15, exactly 16, 17); two coefficients at (0,17) and (1,17) (runs of 16 and 15 in the middle)
-// @bound one block of 18 AC coefficients of magnitude <= 1, 7 layouts, one table pair (DC category c -> 4-bit code c; AC symbols EOB, ZRL, (run r, size 1) -> 5-bit codes); sequential (baseline) scans only
+// @sym DC value and predictor (|v| < 1024); the AC part is concrete per case (symbolic AC positions or signs make the slice scan of process_sequential intractable): the layout of the 18-coefficient block is one of seven enumerated ones, one harness each; this one: one coefficient after a zero run of exactly 16 (one ZRL)
+// @bound one block of 18 AC coefficients of magnitude <= 1, 1 layout (7 over the sibling harnesses), one table pair (DC category c -> 4-bit code c; AC symbols EOB, ZRL, (run r, size 1) -> 5-bit codes); sequential (baseline) scans only
 // @oblig the bytes written are the T.81 F.1.2 coding of the block: DC difference category and bits, (run,size) symbols with a ZRL for every 16 zeros before a non-zero coefficient, EOB iff the block ends with zeros, padded with one bits and 0xFF-stuffed
+// @assume stubs: Vec::push / extend_from_slice write in place and assert a reserved capacity of 64 bytes suffices; BitWriter::new reserves it
+// @replay_search i16:-1023..1023:341 i16:-1023..1023:3 usize:0..33
 // @outside progressive scans, restart intervals, extra_zero_runs fix-ups, larger coefficients and denser blocks
 #[kani::proof]
 #[kani::unwind(21)]
-pub fn c17_sequential_block_matches_t81() {
-    block_case(None, None);
-    block_case(Some((0, 1)), None);
-    block_case(Some((15, -1)), None);
+#[kani::stub(std::vec::Vec::push, jbr_push_stub)]
+#[kani::stub(std::vec::Vec::extend_from_slice, jbr_extend_stub)]
+#[kani::stub(jxl_jbr::verif::BitWriter::new, jbr_bit_writer_new)]
+pub fn c17_sequential_block_zero_run_16() {
     block_case(Some((16, 1)), None);
-    block_case(Some((17, -1)), None);
-    block_case(Some((0, -1)), Some((17, 1)));
-    block_case(Some((1, 1)), Some((17, 1)));
-    kani::cover!(true, "all layouts executed");
+    kani::cover!(true, "layout executed");
 }
+
+// @prop C17
+// @tier thorough
+// @unit jxl_jbr::reconstruct::scan::{process_sequential,ScanState::{update_dc_pred,flush_bit_writer}} jxl_jbr::huffman::HuffmanCode::build jxl_jbr::bit_writer::BitWriter
+// @sym DC value and predictor (|v| < 1024); the AC part is concrete per case (symbolic AC positions or signs make the slice scan of process_sequential intractable): the layout of the 18-coefficient block is one of seven enumerated ones, one harness each; this one: coefficients at 0 and 17: a zero run of exactly 16 between two coefficients
+// @bound one block of 18 AC coefficients of magnitude <= 1, 1 layout (7 over the sibling harnesses), one table pair (DC category c -> 4-bit code c; AC symbols EOB, ZRL, (run r, size 1) -> 5-bit codes); sequential (baseline) scans only
+// @oblig the bytes written are the T.81 F.1.2 coding of the block: DC difference category and bits, (run,size) symbols with a ZRL for every 16 zeros before a non-zero coefficient, EOB iff the block ends with zeros, padded with one bits and 0xFF-stuffed
+// @assume stubs: Vec::push / extend_from_slice write in place and assert a reserved capacity of 64 bytes suffices; BitWriter::new reserves it
+// @replay_search i16:-1023..1023:341 i16:-1023..1023:3 usize:0..33
+// @outside progressive scans, restart intervals, extra_zero_runs fix-ups, larger coefficients and denser blocks
+#[kani::proof]
+#[kani::unwind(21)]
+#[kani::stub(std::vec::Vec::push, jbr_push_stub)]
+#[kani::stub(std::vec::Vec::extend_from_slice, jbr_extend_stub)]
+#[kani::stub(jxl_jbr::verif::BitWriter::new, jbr_bit_writer_new)]
+pub fn c17_sequential_block_zero_run_16_mid() {
+    block_case(Some((0, -1)), Some((17, 1)));
+    kani::cover!(true, "layout executed");
+}
+
+// @prop C17
+// @tier thorough
+// @unit jxl_jbr::reconstruct::scan::{process_sequential,ScanState::{update_dc_pred,flush_bit_writer}} jxl_jbr::huffman::HuffmanCode::build jxl_jbr::bit_writer::BitWriter
+// @sym DC value and predictor (|v| < 1024); the AC part is concrete per case (symbolic AC positions or signs make the slice scan of process_sequential intractable): the layout of the 18-coefficient block is one of seven enumerated ones, one harness each; this one: all-zero AC part (EOB only)
+// @bound one block of 18 AC coefficients of magnitude <= 1, 1 layout (7 over the sibling harnesses), one table pair (DC category c -> 4-bit code c; AC symbols EOB, ZRL, (run r, size 1) -> 5-bit codes); sequential (baseline) scans only
+// @oblig the bytes written are the T.81 F.1.2 coding of the block: DC difference category and bits, (run,size) symbols with a ZRL for every 16 zeros before a non-zero coefficient, EOB iff the block ends with zeros, padded with one bits and 0xFF-stuffed
+// @assume stubs: Vec::push / extend_from_slice write in place and assert a reserved capacity of 64 bytes suffices; BitWriter::new reserves it
+// @replay_search i16:-1023..1023:341 i16:-1023..1023:3 usize:0..33
+// @outside progressive scans, restart intervals, extra_zero_runs fix-ups, larger coefficients and denser blocks
+#[kani::proof]
+#[kani::unwind(21)]
+#[kani::stub(std::vec::Vec::push, jbr_push_stub)]
+#[kani::stub(std::vec::Vec::extend_from_slice, jbr_extend_stub)]
+#[kani::stub(jxl_jbr::verif::BitWriter::new, jbr_bit_writer_new)]
+pub fn c17_sequential_block_all_zero() {
+    block_case(None, None);
+    kani::cover!(true, "layout executed");
+}
+
+// @prop C17
+// @tier thorough
+// @unit jxl_jbr::reconstruct::scan::{process_sequential,ScanState::{update_dc_pred,flush_bit_writer}} jxl_jbr::huffman::HuffmanCode::build jxl_jbr::bit_writer::BitWriter
+// @sym DC value and predictor (|v| < 1024); the AC part is concrete per case (symbolic AC positions or signs make the slice scan of process_sequential intractable): the layout of the 18-coefficient block is one of seven enumerated ones, one harness each; this one: one coefficient at position 0
+// @bound one block of 18 AC coefficients of magnitude <= 1, 1 layout (7 over the sibling harnesses), one table pair (DC category c -> 4-bit code c; AC symbols EOB, ZRL, (run r, size 1) -> 5-bit codes); sequential (baseline) scans only
+// @oblig the bytes written are the T.81 F.1.2 coding of the block: DC difference category and bits, (run,size) symbols with a ZRL for every 16 zeros before a non-zero coefficient, EOB iff the block ends with zeros, padded with one bits and 0xFF-stuffed
+// @assume stubs: Vec::push / extend_from_slice write in place and assert a reserved capacity of 64 bytes suffices; BitWriter::new reserves it
+// @replay_search i16:-1023..1023:341 i16:-1023..1023:3 usize:0..33
+// @outside progressive scans, restart intervals, extra_zero_runs fix-ups, larger coefficients and denser blocks
+#[kani::proof]
+#[kani::unwind(21)]
+#[kani::stub(std::vec::Vec::push, jbr_push_stub)]
+#[kani::stub(std::vec::Vec::extend_from_slice, jbr_extend_stub)]
+#[kani::stub(jxl_jbr::verif::BitWriter::new, jbr_bit_writer_new)]
+pub fn c17_sequential_block_first() {
+    block_case(Some((0, 1)), None);
+    kani::cover!(true, "layout executed");
+}
+
+// @prop C17
+// @tier thorough
+// @unit jxl_jbr::reconstruct::scan::{process_sequential,ScanState::{update_dc_pred,flush_bit_writer}} jxl_jbr::huffman::HuffmanCode::build jxl_jbr::bit_writer::BitWriter
+// @sym DC value and predictor (|v| < 1024); the AC part is concrete per case (symbolic AC positions or signs make the slice scan of process_sequential intractable): the layout of the 18-coefficient block is one of seven enumerated ones, one harness each; this one: one coefficient after 15 zeros (no ZRL)
+// @bound one block of 18 AC coefficients of magnitude <= 1, 1 layout (7 over the sibling harnesses), one table pair (DC category c -> 4-bit code c; AC symbols EOB, ZRL, (run r, size 1) -> 5-bit codes); sequential (baseline) scans only
+// @oblig the bytes written are the T.81 F.1.2 coding of the block: DC difference category and bits, (run,size) symbols with a ZRL for every 16 zeros before a non-zero coefficient, EOB iff the block ends with zeros, padded with one bits and 0xFF-stuffed
+// @assume stubs: Vec::push / extend_from_slice write in place and assert a reserved capacity of 64 bytes suffices; BitWriter::new reserves it
+// @replay_search i16:-1023..1023:341 i16:-1023..1023:3 usize:0..33
+// @outside progressive scans, restart intervals, extra_zero_runs fix-ups, larger coefficients and denser blocks
+#[kani::proof]
+#[kani::unwind(21)]
+#[kani::stub(std::vec::Vec::push, jbr_push_stub)]
+#[kani::stub(std::vec::Vec::extend_from_slice, jbr_extend_stub)]
+#[kani::stub(jxl_jbr::verif::BitWriter::new, jbr_bit_writer_new)]
+pub fn c17_sequential_block_zero_run_15() {
+    block_case(Some((15, -1)), None);
+    kani::cover!(true, "layout executed");
+}
+
+// @prop C17
+// @tier thorough
+// @unit jxl_jbr::reconstruct::scan::{process_sequential,ScanState::{update_dc_pred,flush_bit_writer}} jxl_jbr::huffman::HuffmanCode::build jxl_jbr::bit_writer::BitWriter
+// @sym DC value and predictor (|v| < 1024); the AC part is concrete per case (symbolic AC positions or signs make the slice scan of process_sequential intractable): the layout of the 18-coefficient block is one of seven enumerated ones, one harness each; this one: one coefficient after 17 zeros (ZRL + run 1), last position: no EOB
+// @bound one block of 18 AC coefficients of magnitude <= 1, 1 layout (7 over the sibling harnesses), one table pair (DC category c -> 4-bit code c; AC symbols EOB, ZRL, (run r, size 1) -> 5-bit codes); sequential (baseline) scans only
+// @oblig the bytes written are the T.81 F.1.2 coding of the block: DC difference category and bits, (run,size) symbols with a ZRL for every 16 zeros before a non-zero coefficient, EOB iff the block ends with zeros, padded with one bits and 0xFF-stuffed
+// @assume stubs: Vec::push / extend_from_slice write in place and assert a reserved capacity of 64 bytes suffices; BitWriter::new reserves it
+// @replay_search i16:-1023..1023:341 i16:-1023..1023:3 usize:0..33
+// @outside progressive scans, restart intervals, extra_zero_runs fix-ups, larger coefficients and denser blocks
+#[kani::proof]
+#[kani::unwind(21)]
+#[kani::stub(std::vec::Vec::push, jbr_push_stub)]
+#[kani::stub(std::vec::Vec::extend_from_slice, jbr_extend_stub)]
+#[kani::stub(jxl_jbr::verif::BitWriter::new, jbr_bit_writer_new)]
+pub fn c17_sequential_block_zero_run_17() {
+    block_case(Some((17, -1)), None);
+    kani::cover!(true, "layout executed");
+}
+
+// @prop C17
+// @tier thorough
+// @unit jxl_jbr::reconstruct::scan::{process_sequential,ScanState::{update_dc_pred,flush_bit_writer}} jxl_jbr::huffman::HuffmanCode::build jxl_jbr::bit_writer::BitWriter
+// @sym DC value and predictor (|v| < 1024); the AC part is concrete per case (symbolic AC positions or signs make the slice scan of process_sequential intractable): the layout of the 18-coefficient block is one of seven enumerated ones, one harness each; this one: coefficients at 1 and 17: run of 15 in the middle
+// @bound one block of 18 AC coefficients of magnitude <= 1, 1 layout (7 over the sibling harnesses), one table pair (DC category c -> 4-bit code c; AC symbols EOB, ZRL, (run r, size 1) -> 5-bit codes); sequential (baseline) scans only
+// @oblig the bytes written are the T.81 F.1.2 coding of the block: DC difference category and bits, (run,size) symbols with a ZRL for every 16 zeros before a non-zero coefficient, EOB iff the block ends with zeros, padded with one bits and 0xFF-stuffed
+// @assume stubs: Vec::push / extend_from_slice write in place and assert a reserved capacity of 64 bytes suffices; BitWriter::new reserves it
+// @replay_search i16:-1023..1023:341 i16:-1023..1023:3 usize:0..33
+// @outside progressive scans, restart intervals, extra_zero_runs fix-ups, larger coefficients and denser blocks
+#[kani::proof]
+#[kani::unwind(21)]
+#[kani::stub(std::vec::Vec::push, jbr_push_stub)]
+#[kani::stub(std::vec::Vec::extend_from_slice, jbr_extend_stub)]
+#[kani::stub(jxl_jbr::verif::BitWriter::new, jbr_bit_writer_new)]
+pub fn c17_sequential_block_zero_run_15_mid() {
+    block_case(Some((1, 1)), Some((17, 1)));
+    kani::cover!(true, "layout executed");
+}
+
